@@ -105,4 +105,27 @@ def focusWidget : List Line := [
   ⟨0, .returnS, (.var "nil"), .none⟩]
 
 
+/-- `mouseHandler.mouseExit` -/
+def mouseExit : List Line := [
+  ⟨0, .rangeS, (.pair (.var "_") (.var "v1")), (.var "r.lastHits")⟩,
+  ⟨1, .define, (.pair (.var "v2") (.var "v3")), (.arg (.arg (.call (.var "v1.w.HandleEvent")) (.lit "MouseLeave{}")) (.var "TargetPhase"))⟩,
+  ⟨1, .ifS, (.bin "!=" (.var "v3") (.var "nil")), .none⟩,
+  ⟨2, .returnS, (.var "v3"), .none⟩,
+  ⟨1, .exprS, (.arg (.call (.var "v0.handleCommand")) (.var "v2")), .none⟩,
+  ⟨0, .assign, (.var "r.lastHits"), (.lit "[]hitResult{}")⟩,
+  ⟨0, .returnS, (.var "nil"), .none⟩]
+
+/-- `mouseHandler.mouseEnter` -/
+def mouseEnter : List Line := [
+  ⟨0, .rangeS, (.pair (.var "_") (.var "v2")), (.var "r.lastHits")⟩,
+  ⟨1, .ifS, (.bin "==" (.var "v2.w") (.var "v1")), .none⟩,
+  ⟨2, .returnS, (.var "nil"), .none⟩,
+  ⟨0, .assign, (.var "r.lastHits"), (.arg (.arg (.call (.var "append")) (.var "r.lastHits")) (.lit "hitResult{v1:v1}"))⟩,
+  ⟨0, .define, (.pair (.var "v3") (.var "v4")), (.arg (.arg (.call (.var "v1.HandleEvent")) (.lit "MouseEnter{}")) (.var "TargetPhase"))⟩,
+  ⟨0, .ifS, (.bin "!=" (.var "v4") (.var "nil")), .none⟩,
+  ⟨1, .returnS, (.var "v4"), .none⟩,
+  ⟨0, .exprS, (.arg (.call (.var "v0.handleCommand")) (.var "v3")), .none⟩,
+  ⟨0, .returnS, (.var "nil"), .none⟩]
+
+
 end VaxisModel.Lemmas.VxfwBodyExpected
